@@ -136,17 +136,21 @@ def main():
             m["breaks_property"] = m.get("property")
             with open(mp, "w") as f:
                 json.dump(m, f, indent=1)
-        det = {}
+        det, old = {}, {}
         for k, v in m.get("checks", {}).items():
             if v.get("stale"):
+                c, sd = k.split("@seed")
+                old.setdefault(c, []).append("+" if v["rc"] == 1 else ("?" if v["rc"] not in (0, 1) else "-"))
                 continue
             c, sd = k.split("@seed")
             det.setdefault(c, []).append("%s" % ("+" if v["rc"] == 1 else ("?" if v["rc"] not in (0, 1) else "-")))
         dets = " ".join("%s[%s]" % (c, "".join(v)) for c, v in sorted(det.items()))
+        if old:
+            dets += " (earlier state of the checks: " + " ".join("%s[%s]" % (c, "".join(v)) for c, v in sorted(old.items())) + ")"
         if m.get("neutralised"):
             dets = "(not live on the current tree)"
         rows.append((sid, m.get("property"), m.get("change", ""), m.get("needs_to_manifest", ""), dets, m.get("strengthening", ""), m.get("confirmed")))
-    print("| seeded change | breaks | what was changed | needs | quick checks (seed 0, 1: + caught, - silent) | strengthening it took |")
+    print("| seeded change | breaks | what was changed | needs | quick checks (one sign per workload seed: + caught, - silent) | strengthening it took |")
     print("|---|---|---|---|---|---|")
     for r in rows:
         print("| %s | %s | %s | %s | %s | %s |" % (r[0], r[1], r[2], r[3], r[4], r[5] or "caught as built"))
